@@ -56,6 +56,14 @@ Definition strip_PKCS7_padding (d : bytes) : result bytes :=
          else Ok (takeN (blen d - pad) d)
        end.
 
+(* the reads that happen before the first empty one *)
+Fixpoint until_empty (reads : list bytes) : list bytes :=
+  match reads with
+  | [] => []
+  | [] :: _ => []
+  | c :: cs => c :: until_empty cs
+  end.
+
 Section Modes.
   Variable E D : bytes -> bytes -> bytes.      (* key -> block -> block *)
 
@@ -274,6 +282,30 @@ Section Modes.
              (chunks : list bytes) : result bytes :=
     let* st := mode_init m k iv ctr in
     feed_all m d pad k (feeder_new st) chunks.
+
+  (* ---- _feed_stream / encrypt_stream / decrypt_stream -------------------------------------
+     The input stream is the list of what successive in_stream.read(block_size) calls return
+     (each at most block_size bytes; that bound plays no role in the code).  The loop feeds
+     every chunk and stops at the first empty read - an exhausted list reads as empty - and
+     then flushes with feed(); what is written to out_stream is the concatenation. *)
+  Fixpoint feed_stream (m : mode) (d : direction) (pad : padding) (k : bytes) (fo : feeder) (reads : list bytes)
+    : result bytes :=
+    match reads with
+    | [] => let* (r, _) := feed m d pad k fo None in Ok r
+    | c :: cs =>
+      match c with
+      | [] => let* (r, _) := feed m d pad k fo None in Ok r         (* if not chunk: break *)
+      | _ => let* (o, fo') := feed m d pad k fo (Some c) in
+             let* r := feed_stream m d pad k fo' cs in Ok (o ++ r)
+      end
+    end.
+
+  (* encrypt_stream(Mode(key, iv / Counter(ctr)), in_stream, out_stream, block_size, padding)
+     (d = Enc) and decrypt_stream (d = Dec) *)
+  Definition crypt_stream (m : mode) (d : direction) (pad : padding) (k : bytes) (iv : option bytes) (ctr : N)
+             (reads : list bytes) : result bytes :=
+    let* st := mode_init m k iv ctr in
+    feed_stream m d pad k (feeder_new st) reads.
 
   (* ---- AES128Proxy (register_crypto_plugin/__init__.py) ---------------------------- *)
 
